@@ -20,10 +20,37 @@ def tasks(tier, seed):
     for framing in ("rtu", "tcp"):
         for ka in (False, True):
             ts.append({"name": f"transport-{framing}-{ka}", "fn": "transport", "framing": framing, "ka": ka})
+    # ... and also while another caller's request of a different shape is queued on the same object (the answer must
+    # be judged by the validator of the request it answers)
+    for tr, ka in (("udp", False), ("udp", True), ("tcp", True)):
+        ts.append({"name": f"queued-{tr}-{ka}", "fn": "queued", "transport": tr, "ka": ka})
     return ts
 
 
+def _queued(transport, ka):
+    from .c06 import Concurrent
+
+    class Queued(Concurrent):
+        name = "conforming-while-queued"
+
+        def verdict(self, obs, check, fail):
+            if obs.abort is not None:
+                return
+            for j in range(self.ntasks):
+                if j not in obs.done:
+                    continue
+                k = sum(1 for x in obs.txlog if x[1] == j)
+                if obs.kinds.get((j, 0)) == "answer" and (k != 1 or obs.done[j][1] != "response"):
+                    fail("a conforming answer that arrived in time was not accepted while another request was queued",
+                         f"caller {j}: {k} transmissions, {obs.done[j][1]}")
+    h = Queued(transport, ka, 2, pinned={"0": ["answer", "answer"]})   # caller 0 starts at 0 and is answered; caller 1 is free
+    h.shapes = True
+    return h
+
+
 def run_task(task):
+    if task["fn"] == "queued":
+        return {"harnesses": [explore(_queued(task["transport"], task["ka"]), max_paths=60000, max_seconds=900, witnesses_per_outcome=1)]}
     if task["fn"] == "transport":
         from .c07 import Fragments
         h = Fragments(task["framing"], task["ka"], 2, "stale_next_request")
@@ -38,6 +65,8 @@ def run_task(task):
 
 def replay(case):
     p = case["params"]
+    if case["harness"] == "conforming-while-queued":
+        return _queued(p["transport"], p["keep_alive"]).concrete(case["inputs"])
     if case["harness"] == "conforming-after-fragment":
         from .c07 import Fragments
         return Fragments(p["framing"], p["keep_alive"], p["count"], p["variant"], p["T"], p["retries"]).concrete(case["inputs"])
@@ -51,6 +80,10 @@ def evidence_meta(tier):
     m["rule"] = ("one state = one feasible path of a real validator on a frame of n symbolic bytes; on every "
                  "non-accepting path z3 must refute 'the frame is conforming'; on accepting paths the delivered "
                  "payload must equal the frame's payload bytes")
-    m["outside"] = ["frames longer than 264 bytes", "AA55 frames are at most 264 bytes (length byte) so all are covered",
+    m["bounds"]["transport"] = ("a complete conforming answer (a) to the request after one that left a fragment behind, "
+                                "(b) to a request in flight while a second caller's request of another shape (2 vs 3 "
+                                "registers) is queued: udp x keep-alive, tcp keep-alive; start offsets 0..2T, delays 0..T-1")
+    m["outside"] = ["tcp without keep-alive with two callers: the stale connection_lost defect recorded under C06 closes "
+                    "the second caller's connection before any answer reaches a validator","frames longer than 264 bytes", "AA55 frames are at most 264 bytes (length byte) so all are covered",
                     "trailing bytes after an RTU/TCP read frame: payload compared as a prefix of response_data()"]
     return m
